@@ -122,6 +122,15 @@ func EngineContacts() []J {
 					c["groups"] = gs
 				}
 				out = append(out, c)
+				if rich && wq == -1 {
+					// seen more recently than any message this session will receive (a late message)
+					late := J{}
+					for k, v := range c {
+						late[k] = v
+					}
+					late["last_seen_on"] = "2031-01-01T00:00:00.000000000Z"
+					out = append(out, late)
+				}
 			}
 		}
 	}
